@@ -19,6 +19,10 @@ def role_variants(name):
             name.replace(".json", ""), name.title(), name + "s", name[:-1]}
     out.discard(name)
     return sorted(out)
+BOUNDARY_DATES = ["2000-02-29T00:00:00Z", "2400-02-29T23:59:59Z", "2024-02-29T12:00:00Z", "1970-01-01T00:00:00Z", "1969-12-31T23:59:59Z",
+                  "2038-01-19T03:14:08Z", "0001-01-01T00:00:00Z", "9999-12-31T23:59:59Z", "1999-12-31T23:59:59Z", "2100-02-28T23:59:59Z",
+                  "1900-03-01T00:00:00Z", "2021-10-31T01:30:00Z", "2016-12-31T23:59:59Z", "1600-02-29T00:00:00Z"]
+
 STRATA = ["named", "named", "named", "other_role", "untrusted_own", "union", "below", "type_confusion", "unknown_role",
           "named_junk", "trusted_malformed", "named_with_stale_listed", "named_with_stale_listed"]
 
@@ -89,7 +93,16 @@ def gen_case(rng, gpg=None, stratum=None):
             own["pkg_mgr"] = gmd.delegation(attackers[2:3], 1)
         usigned = gmd.delegating(utype, own, version=rng.randint(1, 5))
         shape = rng.choice(["plain", "plain", "expired_before_timestamp", "expiration_equals_timestamp", "no_timestamp", "big_version",
-                            "huge_version", "extra_fields", "far_future"])
+                            "huge_version", "extra_fields", "far_future", "boundary_dates", "boundary_dates", "integral_nonint_numbers"])
+        if shape == "boundary_dates":
+            # well-formed dates at calendar boundaries (century leap days, epoch, year 1 / 9999, end of month / year)
+            usigned["timestamp"], usigned["expiration"] = rng.choice(BOUNDARY_DATES), rng.choice(BOUNDARY_DATES)
+        elif shape == "integral_nonint_numbers":
+            # whole numbers spelled as float / true in the document's OWN delegations and version (what other JSON writers emit)
+            for dname in list(usigned["delegations"]):
+                usigned["delegations"][dname]["threshold"] = rng.choice([1.0, True, 1])
+            if rng.random() < 0.5 and type(usigned.get("version")) is int and usigned["version"] < 2**53:
+                usigned["version"] = float(usigned["version"])
         if shape == "expired_before_timestamp":
             usigned["timestamp"], usigned["expiration"] = "2030-06-01T00:00:00Z", "2021-01-01T00:00:00Z"
         elif shape == "expiration_equals_timestamp":
@@ -223,6 +236,11 @@ def gen_case(rng, gpg=None, stratum=None):
             trusted["extra"] = 1
         elif how == "type_unsupported":
             trusted["signed"]["type"] = "pkg_mgr"
+    if kind == "delegating" and rng.random() < 0.06 and type(untrusted["signed"].get("version")) is int and untrusted["signed"]["version"] < 2**53:
+        # the document is RESPELLED after it was signed: 3 -> 3.0 (another JSON value, other canonical bytes); the signatures were
+        # made over the integer spelling and no longer cover what is presented
+        untrusted["signed"]["version"] = float(untrusted["signed"]["version"])
+        stratum = stratum + "+respelled-after-signing"
     items = list(untrusted["signatures"].items())
     rng.shuffle(items)
     untrusted["signatures"] = dict(items)
